@@ -18,6 +18,7 @@ RULE = ("Literal contents: strings over an alphabet with the other quote, backsl
         "gives identical assignments over 64 units x 16 groups, minimally different salts give different ones. Non-trivial = "
         "literal that is not a plain lower-case word or a small int; distinct by literal.")
 RULE += (' Since round 7: integer literals of up to 4300 digits; unhashable values asked about membership in literal tuples.')
+RULE += (' Since rounds 14-15: decimal literals decided by digits far to the right (midpoints between doubles, 30-1100 digit expansions); allow-lists of 16-300 members.')
 ASSUMPTIONS = [
     "decimal literals large enough to overflow a double and ints beyond CPython's int<->str digit limit are outside the bound",
     "string literals contain no line-break character and not their own delimiter (the language has no escapes)",
